@@ -1,12 +1,12 @@
 #!/bin/bash
-# collect_seed3.sh <Cxx> : move a round-3 sub-agent result (SEED/ in its scratch worktree) into /verif/seeded/<Cxx>-r3,
+# collect_seed.sh <round> <Cxx> : move a round-3 sub-agent result (SEED/ in its scratch worktree) into /verif/seeded/<Cxx>-r$R,
 # confirm it in a fresh scratch worktree (tools/verify_seed.sh) and remove the sub-agent's worktree.
-id="$1"; wt=/tmp/seed3/$id; dst=/verif/seeded/$id-r3
+R="$1"; id="$2"; wt=/tmp/seed$R/$id; dst=/verif/seeded/$id-r$R
 [ -d "$wt/SEED" ] || { echo "no SEED dir in $wt"; exit 1; }
 mkdir -p "$dst"
 cp -r "$wt/SEED/." "$dst/"
 if [ ! -s "$dst/patch.diff" ]; then git -C "$wt" diff > "$dst/patch.diff"; fi
 # run.sh scripts refer to their own location; keep them relocatable
-sed -i "s#/tmp/seed3/$id/SEED#$dst#g; s#/tmp/seed3/$id#\$1#g" "$dst/run.sh" 2>/dev/null
-/verif/tools/verify_seed.sh "$id-r3" "$dst" | tee "$dst/verify.json"
+sed -i "s#/tmp/seed$R/$id/SEED#$dst#g; s#/tmp/seed$R/$id#\$1#g" "$dst/run.sh" 2>/dev/null
+/verif/tools/verify_seed.sh "$id-r$R" "$dst" | tee "$dst/verify.json"
 git -C /repo worktree remove --force "$wt" >/dev/null 2>&1; rm -rf "$wt"; git -C /repo worktree prune
